@@ -31,7 +31,7 @@ OBLIGATIONS = [
     'C09.edgeDetector_net',
     # netlist level (Props/C09Net.lean): constructor's netlist under Net.Sim = Lib model, for all histories
     'C09N.cycle', 'C09N.init_state', 'C09N.netTrace_sim', 'C09N.treg_net', 'C09N.counter_net', 'C09N.stepUpCounter_net',
-    'C09N.delayLine_net', 'C09N.edgeDetector_netD', 'C09N.edgeDetector_netD_pre',
+    'C09N.delayLine_net', 'C09N.edgeDetector_netD', 'C09N.edgeDetector_netD_pre', 'C09N.shiftRegBidir_net', 'C09N.stack_net', 'C09N.pipelinePhase_net',
     'FlatM.propagate_combfix', 'FlatM.edge_sim', 'C04.propagate_fixpoint', 'C05.leaf_sees_pre_edge',
     # dual-port memory: generated clock (Gen/C09.lean via harness/targets.d/C09.json)
     'C09.dualPort_read_before_write',
@@ -242,6 +242,8 @@ def driver_params(kind, p):
         return list(p['ws'])
     if kind in ('Srb', 'Stack'):
         return [p['w'], p['depth']]
+    if kind == 'Pipe':
+        return list(p['ws'])
     if kind == 'Edge':
         return [p['dir']]
     if kind == 'Div':
@@ -740,7 +742,36 @@ NETMAP = {
 }
 
 
+def netmap(kind, p):
+    if kind == 'Srb':
+        d = p['depth']
+        m = {'li': 1, 'ri': 2, 'lo': 3, 'ro': 4, 'sl': 5, 'sr': 6, 'shift': 7}
+        for k in range(d):
+            m[f'q_{k}'] = 8 + k
+            m[f'rd{k}'] = 8 + d + k
+        return m
+    if kind == 'Pipe':
+        n = len(p['ws'])
+        m = {'reset': 1}
+        for j in range(n):
+            m[f'i{j}'] = 2 + j
+            m[f'o{j}'] = 2 + n + j
+        return m
+    if kind == 'Stack':
+        d = p['depth']
+        m = {'din': 1, 'zerow': 2, 'pre_dout': 3, 'rout': 4, 'pop': 5, 'push': 6, 'shift/shift': 7, 'dout': 8 + 2 * d}
+        for k in range(d):
+            m[f'shift/q_{k}'] = 8 + k
+            m[f'shift/rd{k}'] = 8 + d + k
+        return m
+    return NETMAP[kind]
+
+
 def net_params(kind, p):
+    if kind in ('Srb', 'Stack'):
+        return [p['w'], p['depth']]
+    if kind == 'Pipe':
+        return list(p['ws'])
     if kind == 'TReg':
         return [int(p['hasE']), int(p['hasR'])]
     if kind == 'Counter':
@@ -763,6 +794,8 @@ def net_configs(tier):
                 C.append(('Counter', dict(w=w, hasReset=e, hasInc=r)))
                 C.append(('StepUp', dict(w=w, hasReset=e, hasInc=r, sw=max(1, w - 1 + 2 * r))))
     C += [('Edge', dict(dir=k)) for k in (0, 1, 2)]
+    C += [('Pipe', dict(ws=ws)) for ws in ([[3], [2, 4], [1, 1, 8]] if tier == 'quick' else [[3], [2, 4], [1, 1, 8], [5, 4, 3, 2, 1], [64, 33]])]
+    C += [(k_, dict(w=w, depth=dp, flags=(dp % 2 == 1))) for k_ in ('Srb', 'Stack') for w, dp in ([(1, 1), (4, 2), (4, 3)] if tier == 'quick' else [(1, 1), (4, 2), (4, 3), (2, 7), (33, 12)])]
     for e in (0, 1):
         for r in (0, 1):
             for dl in ([0, 1, 3] if tier == 'quick' else [0, 1, 2, 3, 7, 20]):
@@ -778,10 +811,10 @@ def wire_name(w):
     return w.name
 
 
-def render_live(kind, blk):
+def render_live(kind, blk, p=None):
     """the LIVE constructor's netlist in the format of C09N.KNet.render, wires renamed by name"""
     d = D.Dump(blk.sys, blk.sim)
-    m = NETMAP[kind]
+    m = netmap(kind, p if p is not None else blk.p)
     can = {0: 0}
     for i, w in enumerate(d.wires):
         n = wire_name(w)
